@@ -1204,6 +1204,13 @@ func intrSplit(e *Exec, st *State, fr *Frame, args []Val, in ssa.Instruction, rt
 					}
 				}
 			}
+			if sepS, isC := concreteString(sep); isC && len(sepS) == 1 && s.Tag == nil && e.lacksByte(st, s, sepS[0]) {
+				// a string known not to contain the separator is the single part
+				elem := rt.Underlying().(*types.Slice).Elem()
+				n := e.idx(1)
+				id := e.newObj(st, &ArrayVal{ElemT: elem, Len: n, List: []Val{s}}, &ObjMeta{T: types.NewArray(elem, 1), Fresh: true})
+				return []callRes{{st, &SliceVal{Obj: id, Off: e.idx(0), Len: n, Cap: n, Nil: e.C.False(), ElemT: elem}}}
+			}
 			if parts, ok := e.splitTagged(st, s, sep); ok {
 				elem := rt.Underlying().(*types.Slice).Elem()
 				n := e.idx(int64(len(parts)))
